@@ -9,14 +9,15 @@ from vlib import *
 GEN = os.path.join(SPECS, "gen")
 
 
-def gen_histories(res, wd, kind, threads, V, maxlen, badupto, label):
+def gen_histories(res, wd, kind, threads, V, maxlen, badupto, label, simulate=0):
     os.makedirs(GEN, exist_ok=True)
     cfg = os.path.join(GEN, "MCHistories_%s.cfg" % label)
     with open(cfg, "w") as f:
-        f.write("SPECIFICATION Spec\nCONSTANTS\n  Kind = \"%s\"\n  Threads = {%s}\n  V = %d\n  MaxLen = %d\n  BadUpTo = %d\n"
+        f.write("SPECIFICATION Spec\nCONSTANTS\n  Kind = \"%s\"\n  Threads = {%s}\n  V = %d\n  MaxLen = %d\n  BadUpTo = %d\n  Typed = %s\n"
                 "INVARIANT LinImpliesSC\nINVARIANT PrefixClosed\nINVARIANT EmptyConsistent\nINVARIANT Emit\nCHECK_DEADLOCK FALSE\n"
-                % (kind, ", ".join(str(t) for t in range(1, threads + 1)), V, maxlen, badupto))
-    r = run_tlc("MCHistories.tla", cfg, workers=1, timeout=3000, name="hist-" + label, heap="6g")
+                % (kind, ", ".join(str(t) for t in range(1, threads + 1)), V, maxlen, badupto, "TRUE" if simulate else "FALSE"))
+    extra = ["-simulate", "num=%d" % simulate, "-depth", str(maxlen + 1), "-seed", str(seed())] if simulate else None
+    r = run_tlc("MCHistories.tla", cfg, workers=1, timeout=3000, name="hist-" + label, heap="6g", extra=extra)
     res.add_tlc(r, "MCHistories[%s]" % label)
     if not r["ok"]:
         raise ToolError("MCHistories %s: theorem %s violated -- Consistency.tla is wrong\n%s" % (label, r["violated"], r["out"][-2000:]))
@@ -26,6 +27,15 @@ def gen_histories(res, wd, kind, threads, V, maxlen, badupto, label):
             body = line[len('<<"HIST", "'):-3]
             body = body.replace('\\"', '"').replace("\\\\", "\\")
             hs.append(json.loads(body))
+    if simulate:
+        # behaviours share prefixes: keep each history once
+        seen, out = set(), []
+        for h in hs:
+            k = json.dumps(h, sort_keys=True)
+            if k not in seen:
+                seen.add(k)
+                out.append(h)
+        return out
     if len(hs) != r["distinct"]:
         raise ToolError("history lines %d != TLC distinct states %d" % (len(hs), r["distinct"]))
     return hs
@@ -65,6 +75,12 @@ PLANS = {
                  ("wo", 3, 1, 5, 0), ("wo", 2, 2, 3, 3), ("vec", 2, 2, 5, 0), ("vec", 3, 1, 5, 0), ("vec", 2, 2, 3, 3)],
 }
 
+# sampled legs: (kind, threads, values, max events, number of TLC-simulated behaviours)
+SAMPLED = {
+    "quick": [("reg", 3, 2, 9, 1300), ("vec", 3, 2, 8, 350), ("wo", 3, 2, 8, 350)],
+    "thorough": [("reg", 3, 2, 10, 60000), ("reg", 4, 2, 10, 20000), ("vec", 3, 2, 9, 20000), ("wo", 3, 2, 9, 20000)],
+}
+
 FIELDS = {
     "C08": ["no_panic", "lin_verdict", "lin_ser", "lin_ser_iff", "lin_illformed", "lin_calls", "lin_len"],
     "C14": ["no_panic", "sc_verdict", "sc_ser", "sc_ser_iff", "sc_illformed", "sc_calls", "sc_len", "lin_implies_sc",
@@ -76,9 +92,10 @@ def run(res, pid):
     wd = workdir("%s-%s" % (pid, res.tier))
     total = 0
     nontriv = set()
-    for (kind, th, V, ml, bad) in PLANS[res.tier]:
-        label = "%s_t%d_v%d_l%d" % (kind, th, V, ml)
-        hs = gen_histories(res, wd, kind, th, V, ml, bad, label)
+    plans = [(k, th, V, ml, bad, 0) for (k, th, V, ml, bad) in PLANS[res.tier]] + [(k, th, V, ml, 0, n) for (k, th, V, ml, n) in SAMPLED[res.tier]]
+    for (kind, th, V, ml, bad, sim) in plans:
+        label = "%s_t%d_v%d_l%d%s" % (kind, th, V, ml, "_sim%d" % sim if sim else "")
+        hs = gen_histories(res, wd, kind, th, V, ml, bad, label, simulate=sim)
         recs, judged = replay_and_judge(wd, hs)
         total += len(hs)
         for rec, j in zip(recs, judged):
@@ -97,8 +114,9 @@ def run(res, pid):
     res.traces += total
     res.evaluations += total
     res.nontrivial += len(nontriv)
-    res.extra["exhaustive"] = True
-    res.rule = ("ALL histories within the bounds listed in tlc_runs (threads x events x value alphabet, incl. mismatched return "
+    res.extra["exhaustive"] = False
+    res.rule = ("(sampled legs *_sim*: longer histories with 3-4 threads drawn by TLC's simulation mode from the same generator "
+                "spec with typed, plausible returns) ALL histories within the bounds listed in tlc_runs (threads x events x value alphabet, incl. mismatched return "
                 "kinds and ill-formed steps followed by <=2 events) enumerated by TLC from MCHistories.tla and replayed into "
                 "the real testers; non-trivial = distinct well-formed histories with >=3 events")
     res.assumptions += ["exhaustive only within the stated bounds on threads, events and values"]
